@@ -467,6 +467,28 @@ func (wb *wireBuilder) build(n *wNFA, fn *ssa.Function, c *wireCtx, streamParams
 		}
 		switch t := lastInstr(b).(type) {
 		case *ssa.If:
+			// a test of an error value against nil: the wire language is that of the paths on which nothing failed,
+			// so only the edge with the nil error is followed.  For `if err != nil { return err }` this is what not
+			// accepting at a rejecting return already did; it also covers errors merged into one variable
+			// (`err := put(a); if err == nil { err = put(b) }; return err`), where the failure path skips writes and
+			// ends in a return that is not known to reject.
+			if bo, isBo := t.Cond.(*ssa.BinOp); isBo && (bo.Op == token.EQL || bo.Op == token.NEQ) {
+				var x ssa.Value
+				switch {
+				case IsNil()(bo.Y):
+					x = bo.X
+				case IsNil()(bo.X):
+					x = bo.Y
+				}
+				if x != nil && x.Type().String() == "error" {
+					if bo.Op == token.EQL {
+						link(cur, b, b.Succs[0], 0)
+					} else {
+						link(cur, b, b.Succs[1], 0)
+					}
+					continue
+				}
+			}
 			if val, known := wb.evalBool(lc, t.Cond); known {
 				if val {
 					link(cur, b, b.Succs[0], 0)
